@@ -308,6 +308,53 @@ def user_mutations_stay_local():
     return None
 
 
+def constructor_arguments_decide():
+    """Two instances built with the same constructor arguments - a renderer subclass, a preset given as a
+    dict, an options_update - behave identically whatever was constructed or parsed in between; the
+    renderer class is part of the configuration (renderer_cls), and a subclass may add rules under
+    names the base class has no method for."""
+    from markdown_it import MarkdownIt
+    from markdown_it.renderer import RendererHTML
+
+    def factory():
+        class Custom(RendererHTML):
+            def strong_open(self, tokens, idx, options, env):
+                return "<b>"
+
+            def strong_close(self, tokens, idx, options, env):
+                return "</b>"
+
+            def paragraph_open(self, tokens, idx, options, env):
+                return "<p class=x>"
+
+            def fence(self, tokens, idx, options, env):
+                return "<pre>F</pre>\n"
+        return Custom
+
+    src = "some **bold** text\n\n```py\nc\n```\n\n- *l*\n"
+    first = None
+    for round_ in range(3):
+        for preset in ("commonmark", "js-default", "zero"):
+            a = MarkdownIt(preset, renderer_cls=factory())
+            if preset == "zero":
+                a.enable(["emphasis", "fence", "list"])
+            out = call(a, "render", src)
+            key = preset
+            if first is None:
+                first = {}
+            if key not in first:
+                first[key] = out
+            elif first[key] != out:
+                return {"kind": "an instance constructed with a renderer subclass renders differently from an identically constructed earlier one",
+                        "preset": preset, "src": src, "first": str(first[key])[:400], "later": str(out)[:400]}
+            # something unrelated in between
+            call(MarkdownIt("commonmark"), "render", src)
+            call(MarkdownIt("gfm-like", {"linkify": False}), "render", "| a |\n|---|\n")
+        if "<b>bold</b>" not in str(first["commonmark"]) or "<pre>F</pre>" not in str(first["commonmark"]):
+            return {"kind": "the methods of a renderer subclass are not the render rules of the instance", "html": str(first["commonmark"])[:400]}
+    return None
+
+
 def toggle_each_rule():
     """for every rule of every chain: an instance that has already parsed, then has the rule toggled, must parse
     like a fresh instance configured the same way - on its very first call after the change"""
@@ -390,7 +437,7 @@ def run(ctx) -> int:
             direct_fail = (h, d)
             break
     if direct_fail is None:
-        d = refs_do_not_travel() or user_mutations_stay_local() or toggle_each_rule()
+        d = refs_do_not_travel() or constructor_arguments_decide() or user_mutations_stay_local() or toggle_each_rule()
         if d is not None:
             direct_fail = ([], d)
     if direct_fail is None:
